@@ -36,8 +36,20 @@ GRIDS_THOROUGH = [
 ]
 
 
+B5 = dict(x=(0, 1), y=(0, 1), z=(0, 1), w=(0, 1), v=(0, 1))
+B6 = dict(x=(0, 1), y=(0, 1), z=(0, 1), w=(0, 1), v=(0, 1), u=(0, 1))
+G44 = dict(x=(0, 3), y=(0, 3), z=(0, 1))
+
+
 def families(tier, seed):
     out = list()
+    # sampled larger instances with a non-empty cyclic core (the branch and bound runs)
+    if WHAT == 'C09':
+        cyc = [(B5, 320, 16), (B6, 96, 16), (G44, 64, 8)] if tier == 'quick' else [(B5, 2400, 32), (B6, 960, 32), (G44, 480, 16)]
+        for decl, n, parts in cyc:
+            for part in range(parts):
+                out.append(dict(name=f'{WHAT} bounded cyclic cores {sorted(decl)} n={n} part {part}/{parts}',
+                                run=_part(decl, 'cyclic-core', seed, n, 'cudd', part, parts), label='bounded'))
 
     grids = GRIDS_QUICK + (GRIDS_THOROUGH if tier == 'thorough' else [])
     for gi, (decl, mode, n) in enumerate(grids):
@@ -51,6 +63,10 @@ def families(tier, seed):
 
 
 def _part(decl, mode, seed, n, be, part, parts):
+    if mode == 'cyclic-core':
+        # independently seeded parts (generation is the costly step)
+        return cc_.cover_check(decl, mode, seed * 1000 + part, max(1, n // parts), be, WHAT)
+
     def run():
         ref, insts = cc_.instances(decl, mode, seed, n)
         sel = insts[part::parts]
@@ -64,4 +80,4 @@ def _part(decl, mode, seed, n, be, part, parts):
 
 
 def coverage_extra(results):
-    return dict(bounded_parameters=dict(instances='exhaustive: all subsets of the 2x2 and 2x2x2 hinted grids; sampled: 3x3 grid, 4x4 and mixed-sign grids with random care sets (VERIF_SEED)'))
+    return dict(bounded_parameters=dict(instances='exhaustive: all subsets of the 2x2 and 2x2x2 hinted grids; sampled: 3x3 grid, 4x4 and mixed-sign grids with random care sets; sampled instances with a non-empty cyclic core over 5 and 6 two-valued variables and a 4x4x2 grid (320/96/64 quick, 2400/960/480 thorough; VERIF_SEED; PYTHONHASHSEED fixed to 0 by bin/ovc)'))
